@@ -16,6 +16,9 @@ CLAIMS = {
     "C12": ("proof",
             "Contracts on UnitCell.set_lengths_and_angles / set_vectors / volume / to_cartesian / to_fractional / reciprocal quantities / every named constructor: the real source is executed on symbolic lengths and angles (cos, sin, sqrt, arccos as uninterpreted functions with their defining identities) and every clause of the statement (mutual inverses, row norms and angles, det = volume, coordinate round trip, reciprocal lengths and angles, agreement of the two construction routes, constructor parameters in degrees and radians) is discharged for all cells by checked algebraic certificates (rewriting to normal form 0 / cofactors verified with exact arithmetic) or z3/cvc5; _set_cell_type by a frame obligation.",
             "floats as reals; real-analysis facts cos^2+sin^2=1, sqrt(x)^2=x, arccos(cos x)=x on [0,pi]; numpy.linalg.inv two-sided inverse; domain: positive lengths, angles in (0,pi), positive radicand"),
+    "C16": ("proof",
+            "Contracts on Molecule.to_xyz_string/from_xyz_string/to_sdf_string/from_sdf_dict, parse_xyz_string and the SDF line writers/readers: the real code is executed on symbolic coordinates with structured strings, giving for all coordinates in range: column alignment of every written field against the published V2000 table, parse(format(x)) within half a unit of the last digit, coordinate k read back as coordinate k, whole-text write->read for two-atom instances; frame obligations show every reader/writer loop is a map, lifting the per-line contracts to any atom count; tables checked against the V2000 standard; all 103 elements and the dispatch table enumerated. Native save/load of seeded molecules (1..200 atoms, bonds, multi-record files) is a bounded stand-in.",
+            "CPython format/parse contract and str.split/splitlines/join models (assumed); floats as reals; whole-text obligations are instances at 2 atoms lifted by the map-loop frame argument"),
 }
 
 NA_PENDING = "check not built yet in this session (see DESIGN.md section 8 build order)"
